@@ -26,6 +26,12 @@ func protectLineFeeds(literal string) string {
 	return strings.ReplaceAll(literal, "\n", stringLineFeed)
 }
 
+// The ast nodes print their own inline comments (`set /* c */ req.http.Foo = ...`): the line feeds of a
+// block comment among them are protected like everywhere else.
+func nodeString(n interface{ String() string }) string {
+	return protectLineFeeds(n.String())
+}
+
 func restoreLineFeeds(formatted []byte) []byte {
 	return bytes.ReplaceAll(formatted, []byte(stringLineFeed), []byte("\n"))
 }
